@@ -47,6 +47,10 @@ func checkLiquidSpend(kind string, spend *transaction.Transaction, opening *tran
 	if !bytes.Equal(prev.Script, append([]byte{0x00, 0x20}, wsh[:]...)) {
 		return errors.New("witness script does not hash to the spent output's script")
 	}
+	// the spent output must carry the script of THIS swap (both keys, the hash, the swap's own csv)
+	if want := scriptpolicy.Build(scriptpolicy.Params{Maker: makerPub, Taker: takerPub, Hash: hash, CSV: params.CSV}); !bytes.Equal(redeem, want) {
+		return fmt.Errorf("the witness script is not the opening script of the swap (csv %d):\n got  %x\n want %x", params.CSV, redeem, want)
+	}
 	sigHash := spend.HashForWitnessV0(0, redeem, prev.Value, txscript.SigHashAll)
 	checker := func(pub, sig []byte) (bool, error) {
 		if sig[len(sig)-1] != byte(txscript.SigHashAll) {
